@@ -230,10 +230,12 @@ type hist struct {
 
 	concurrent       bool // a flush is running while rollup jobs run
 	refsBeforeReopen string
-	crashWindow      bool         // judging a recovered crash image before the rollup was repeated
-	world            *imgfs.World // crash part
-	beforeTrigger    func()       // crash part: switch imaging on
-	afterIdle        func()       // crash part: switch imaging off
+	crashWindow      bool           // judging a recovered crash image before the rollup was repeated
+	fault            *faultState    // failed-job part: the failing step armed for the current rollup step
+	faultPending     map[int64]bool // failed-job part: target intervals whose last job failed and has not been made up for
+	world            *imgfs.World   // crash part
+	beforeTrigger    func()         // crash part: switch imaging on
+	afterIdle        func()         // crash part: switch imaging off
 }
 
 func newHist(spec *histSpec, res *histResult, rnd *rand.Rand) *hist {
@@ -878,6 +880,7 @@ func (h *hist) rollupStepFull(trig, ctxName string, custom func(), during func()
 	for _, iv := range h.m.targets {
 		typ := typeOf(iv)
 		var ran []*fileRec
+		faultedDone := false        // the job into this target hit the injected failing step and removed its marks all the same
 		definite := map[int]bool{}  // seq: not on level 0 before the trigger
 		possible := map[int][]int{} // family -> seqs that left level 0 during the step
 		for _, f := range h.fams {
@@ -937,6 +940,10 @@ func (h *hist) rollupStepFull(trig, ctxName string, custom func(), during func()
 			}
 			switch {
 			case removed == len(pend):
+				if h.fault.injectedInto(iv) {
+					h.res.count("fault.failed_jobs_that_removed_their_rollup_marks."+typ, 1)
+					faultedDone = true
+				}
 				h.res.count("rollup_jobs_completed."+typ, 1)
 				h.res.count("source_files_rolled_up."+typ, len(pend))
 				if len(pend) > 1 {
@@ -954,7 +961,10 @@ func (h *hist) rollupStepFull(trig, ctxName string, custom func(), during func()
 					h.res.count("tick_rollups_below_file_threshold(time threshold)", 1)
 				}
 			case removed == 0:
-				if trig == trigForce {
+				if h.fault.injectedInto(iv) {
+					// the job into this target failed at the injected step: keeping the marks is what makes the retry possible
+					h.res.count("fault.failed_jobs_that_kept_their_rollup_marks."+typ, 1)
+				} else if trig == trigForce {
 					h.res.violation("C04/rollup/forced-job-leaves-rollup-marks/"+typ, fmt.Sprintf("step %d (%s): ForceRollup on an idle source family %s/%s with %d marked files ran to quiescence, the marks for %s are still there",
 						h.stepNo, h.stepOp, f.place.Segment, f.place.Family, len(pend), ivName(iv)), h.witness(nil))
 				} else if len(pre[f.Idx].Marks) >= 3 {
@@ -995,6 +1005,11 @@ func (h *hist) rollupStepFull(trig, ctxName string, custom func(), during func()
 		// level 0 when its job runs contributes nothing, its mark is deleted nevertheless)? Only used to LABEL.
 		if h.explainByLeftLevel0(iv, tv, ran, definite, possible, pre, post, r) {
 			continue
+		}
+		if faultedDone {
+			h.res.violation("C04/bookkeeping/marks-removed-although-rollup-job-failed/"+typ, fmt.Sprintf("step %d (%s): the rollup job into the %s target hit an i/o error (%s of its output table) and installed nothing, "+
+				"yet all its rollup marks for %s are gone and %d target cells are missing or wrong, e.g. %s: no later trigger can roll these files up",
+				h.stepNo, h.stepOp, typ, h.fault.kind, ivName(iv), r.Mismatch, firstDetail(r)), h.witness(map[string]interface{}{"interval": ivName(iv), "failing_step": h.fault.kind}))
 		}
 		h.reportDiffs(iv, ctx, r)
 	}
@@ -1376,7 +1391,12 @@ func (h *hist) run(dir string) {
 			}
 			h.checkAfter("flush")
 		case "rollup":
-			h.rollupStep(trigForce)
+			if ctx := h.faultRetryCtx(); ctx != "" {
+				h.rollupStepFull(trigForce, ctx, nil, nil)
+				h.afterFaultRetry(ctx)
+			} else {
+				h.rollupStep(trigForce)
+			}
 			if h.prevOp == "flush" {
 				h.checkSources("rollup")
 			}
@@ -1422,6 +1442,9 @@ func (h *hist) run(dir string) {
 			h.shutdownStep()
 		case "retrigger":
 			h.retriggerStep()
+			name = "rollup"
+		case "faultrollup":
+			h.faultStep(op[strings.IndexByte(op, ':')+1:])
 			name = "rollup"
 		case "storm":
 			h.stormStep(arg)
